@@ -331,6 +331,32 @@ def run(ctx):
                     for b in bads:
                         rej.append((f"out-of-range {k}={b}", lambda k=k, b=b: copy.deepcopy(obj).update(**{k: b})))
                         rej.append((f"out-of-range {k}={b} (ctor)", lambda k=k, b=b: cls(**dict(realfuzz.BASE[cn], **{k: b}))))
+            # every numeric constructor argument accepts the usual numeric types (Python int, numpy integer / floating scalars, 0-d arrays):
+            # through the constructor and through update() the outputs are those of the plain-float value
+            if cn in ("MassFunction", "Transfer", "MassFunctionWDM"):
+                qn_ = "dndm" if cn.startswith("MassFunction") else "power"
+                numeric = {"z": 1.0, "sigma_8": 1.0, "n": 1.0, "delta_c": 2.0, "Mmin": 10.0, "Mmax": 14.0, "dlog10m": 1.0, "lnk_min": -8.0, "lnk_max": 4.0, "dlnk": 0.25, "wdm_mass": 3.0}
+                for k_, v_ in numeric.items():
+                    if k_ not in kws:
+                        continue
+                    try:
+                        want_ = np.asarray(getattr(cls(**dict(realfuzz.BASE[cn], **{k_: v_})), qn_), float)
+                    except Exception:
+                        continue
+                    variants = [("np.float64", np.float64(v_)), ("np.float32", np.float32(v_)), ("0-d array", np.array(v_))]
+                    if float(v_).is_integer():
+                        variants += [("int", int(v_)), ("np.int64", np.int64(int(v_)))]
+                    for tn_, tv_ in variants:
+                        n_checks += 1
+                        try:
+                            got_c = np.asarray(getattr(cls(**dict(realfuzz.BASE[cn], **{k_: tv_})), qn_), float)
+                            o_ = cls(**copy.deepcopy(realfuzz.BASE[cn])); getattr(o_, qn_); o_.update(**{k_: tv_})
+                            got_u = np.asarray(getattr(o_, qn_), float)
+                        except Exception as e:
+                            viol(f"{cn}/typed-value/{k_}", f"{cn}: {k_}={tv_!r} ({tn_}) raises {type(e).__name__}: {str(e)[:80]}, the plain float {v_!r} is accepted")
+                            continue
+                        if not (got_c.shape == want_.shape and np.allclose(got_c, want_, rtol=1e-6, equal_nan=True) and got_u.shape == want_.shape and np.allclose(got_u, want_, rtol=1e-6, equal_nan=True)):
+                            viol(f"{cn}/typed-value/{k_}", f"{cn}: {k_}={tv_!r} given as {tn_} gives a different {qn_} than the plain float {v_!r} (constructor and/or update)")
             if cn == "MassFunction":
                 # out-of-range model parameters: Tinker10 needs gamma > 0, eta > -1/2, eta - phi > -1/2, beta > 0 for the values it uses at the
                 # object's redshift (coefficients evolve as (1+z)^exp); both values already bad at z=0 and values that only leave the range at z>0
